@@ -20,19 +20,6 @@ Definition srcs_wf (f : func) : bool :=
                                       | _ => true end) (b_instrs b)) (f_blocks f).
 Definition c13_wf (f : func) : bool := names_ok f && srcs_wf f.
 
-(* validator: every stored state IS the transfer of the join of its predecessors' states (as maps).
-   The engine only guarantees this up to Constants::partial_cmp = Equal, which is weaker. *)
-Definition exact_at (f : func) (m : list (floc * cmap)) (l : floc) (s : cmap) : bool :=
-  match backward f l with
-  | Ok ps => match FixedPoint.join_neighbours floc cmap floc_eqb c_join m ps with
-             | Ok sto => match c_trans f l sto with Ok new => cmap_eqb new s | _ => false end
-             | _ => false
-             end
-  | _ => false
-  end.
-Definition exact_solution (f : func) (m : list (floc * cmap)) : bool :=
-  forallb (fun kv : floc * cmap => exact_at f m (fst kv) (snd kv)) m.
-
 (* ================================================================== association maps *)
 Lemma scalar_eqb_refl s : scalar_eqb s s = true.
 Proof. apply scalar_eqb_eq. reflexivity. Qed.
@@ -613,7 +600,8 @@ Section Exec2.
     assert (HU : forall x, In x (loc_writes f l) -> In x U).
     { intros x Hx. apply (all_scalars_in f l); [exact Hl|]. apply in_or_app. right. apply in_or_app. left. exact Hx. }
     destruct l as [bi ii|h t|bi]; try discriminate Hi.
-    rewrite c_trans_norm, <- Hs in Ht. clear Hs.
+    assert (Ht' : c_trans f (LInstr bi ii) (Some s) = Ok new) by (subst s; rewrite c_trans_norm in Ht; exact Ht).
+    clear Ht Hs. rename Ht' into Ht.
     cbv beta iota zeta delta [c_trans] in Ht. rewrite Hi in Ht.
     unfold loc_reads in Hreads. rewrite Hi in Hreads. unfold loc_writes in HU. rewrite Hi in HU.
     destruct (i_op i) as [dst src|idx src|dst idx|tgt|intr|ph] eqn:Ho; cbn [exec_op op_scalars_read] in *.
@@ -647,3 +635,291 @@ Section Exec2.
     - injection Hex as <- <-. injection Ht as <-. exact Hd.
   Qed.
 End Exec2.
+
+(* ================================================================== definite assignment along an execution *)
+Section DA.
+  Variable f : func.
+  Variables (entry : floc) (dm : da_map).
+  Hypothesis Hentry : entry_loc f = Some entry.
+  Hypothesis Hsol : da_solution f = Some dm.
+  Hypothesis Hda : def_assigned f = true.
+
+  Lemma da_facts :
+    da_get dm entry = [] /\
+    (forall l, In l (locations f) -> l <> entry -> forall p, In p (il_pred f l) ->
+       forall x, In x (da_get dm l) -> In x (da_get dm p) \/ In x (loc_writes f p)) /\
+    (forall l, In l (locations f) -> forall x, In x (loc_reads f l) -> In x (da_get dm l)).
+  Proof.
+    unfold def_assigned in Hda. rewrite Hentry, Hsol in Hda. apply andb_prop in Hda as [Hp Hr].
+    unfold da_post in Hp. apply andb_prop in Hp as [Hp1 Hp2]. split; [|split].
+    - destruct (da_get dm entry); [reflexivity|discriminate].
+    - intros l Hl Hne p Hpred x Hx. rewrite forallb_forall in Hp2. specialize (Hp2 l Hl).
+      destruct (floc_eqb l entry) eqn:E; [apply floc_eqb_eq in E; contradiction|].
+      unfold il_pred in Hpred. destruct (backward f l) as [ps| |]; [|destruct Hpred ..].
+      rewrite forallb_forall in Hp2. specialize (Hp2 p Hpred). unfold ss_subset in Hp2.
+      rewrite forallb_forall in Hp2. specialize (Hp2 x Hx). apply ss_mem_in in Hp2.
+      unfold da_out in Hp2. apply fold_add_in in Hp2. tauto.
+    - intros l Hl x Hx. rewrite forallb_forall in Hr. specialize (Hr l Hl). unfold ss_subset in Hr.
+      rewrite forallb_forall in Hr. apply ss_mem_in. exact (Hr x Hx).
+  Qed.
+
+  Definition da_inv (l : floc) (asg : list skey) : Prop :=
+    forall x, In x (da_get dm l) -> key_mem (skey_of x) asg = true.
+
+  Lemma key_mem_after k asg ev : key_mem k asg = true -> key_mem k (asg_after asg ev) = true.
+  Proof. intros H. destruct ev; cbn [asg_after]; try exact H; rewrite key_mem_cons, H; apply orb_true_r. Qed.
+
+  Lemma exec_writes st o st' ev x : exec_op st o = Ok (st', ev) ->
+    In x (match o with OAssign dst _ | OLoad dst _ => [dst] | _ => [] end) ->
+    key_mem (skey_of x) (asg_after [] ev) = true.
+  Proof.
+    destruct o as [dst src|idx src|dst idx|tgt|intr|ph]; cbn [exec_op].
+    2, 4, 5, 6: intros _ Hf; destruct Hf.
+    - destruct (den (st_env st) src) as [v| |]; try discriminate. cbn [bind]. intros [= _ <-] [<-|[]].
+      cbn [asg_after]. rewrite key_mem_cons, skey_eqb_refl. reflexivity.
+    - destruct (den (st_env st) idx) as [ix| |]; try discriminate. cbn [bind].
+      destruct (addr_of ix) as [a| |]; try discriminate. cbn [bind].
+      destruct (mem_load (st_mem st) a (sbits dst)) as [v| |]; try discriminate. cbn [bind]. intros [= _ <-] [<-|[]].
+      cbn [asg_after]. rewrite key_mem_cons, skey_eqb_refl. reflexivity.
+  Qed.
+
+  Lemma asg_after_app k asg ev : key_mem k (asg_after [] ev) = true -> key_mem k (asg_after asg ev) = true.
+  Proof. destruct ev; cbn [asg_after]; try discriminate; rewrite !key_mem_cons; intros H; apply orb_prop in H as [H|H]; try discriminate H; rewrite H; reflexivity. Qed.
+
+  Lemma da_inv_step l st l' st' ev asg : In l' (locations f) -> In l (il_pred f l') ->
+    da_inv l asg -> sem_step f l st = Sem.Next l' st' ev -> da_inv l' (asg_after asg ev).
+  Proof.
+    intros Hl' Hp Hinv Hs x Hx. destruct da_facts as (F1 & F2 & _).
+    destruct (floc_eqb l' entry) eqn:E.
+    - apply floc_eqb_eq in E. subst l'. rewrite F1 in Hx. destruct Hx.
+    - assert (Hne : l' <> entry) by (intros ->; assert (floc_eqb entry entry = true) by (apply floc_eqb_eq; reflexivity); congruence).
+      destruct (F2 l' Hl' Hne l Hp x Hx) as [H|H]; [apply key_mem_after; exact (Hinv x H)|].
+      unfold loc_writes in H. destruct (sem_step_next_inv f l st l' st' ev Hs) as [(i & Hi & Hex)|(Hi & _ & _)]; rewrite Hi in H; [|destruct H].
+      apply asg_after_app. eapply exec_writes; [exact Hex|exact H].
+  Qed.
+End DA.
+
+(* ================================================================== executions against an exact solution *)
+Lemma cmap_eqb_get a b : cmap_eqb a b = true -> forall k, cm_get a k = cm_get b k.
+Proof.
+  unfold cmap_eqb. intros H k. apply andb_prop in H as [H Hba]. apply andb_prop in H as [_ Hab].
+  unfold cmap_sub in *. rewrite forallb_forall in Hab, Hba.
+  destruct (cm_get a k) as [v|] eqn:Ea.
+  - specialize (Hab _ (cm_get_in _ _ _ Ea)). cbn [fst snd] in Hab.
+    destruct (cm_get b k) as [v'|]; [|discriminate]. apply cst_eqb_eq in Hab. congruence.
+  - destruct (cm_get b k) as [v'|] eqn:Eb; [|reflexivity].
+    specialize (Hba _ (cm_get_in _ _ _ Eb)). cbn [fst snd] in Hba. rewrite Ea in Hba. discriminate.
+Qed.
+
+Lemma lookup_in {S0} (m : list (floc * S0)) l s : FixedPoint.lookup floc S0 floc_eqb m l = Some s -> In (l, s) m.
+Proof.
+  induction m as [|[k v] t IH]; cbn [FixedPoint.lookup]; [discriminate|].
+  destruct (floc_eqb k l) eqn:E; [|right; auto]. apply floc_eqb_eq in E. intros [= <-]. left. congruence.
+Qed.
+
+Section Sound.
+  Variable f : func.
+  Let U := all_scalars f.
+  Hypothesis Hinv : cfg_inv (f_cfg f) = true.
+  Hypothesis Hwf : c13_wf f = true.
+  Hypothesis Hda : def_assigned f = true.
+  Variables (e : Z) (eb : block).
+  Hypothesis He : g_entry (f_cfg f) = Some e.
+  Hypothesis Hb : find_block (f_blocks f) e = Some eb.
+  Let entry := block_first_loc eb.
+  Variable m : list (floc * cmap).
+  Hypothesis Hdom : forall l, clk m l <> None <-> reachL f entry l.
+  Hypothesis Hgood : forall l s, clk m l = Some s -> good f s.
+  Hypothesis Hexact : exact_solution f m = true.
+
+  Lemma Hnames : names_ok f = true. Proof. unfold c13_wf in Hwf. apply andb_prop in Hwf. tauto. Qed.
+  Lemma Hsrc : srcs_wf f = true. Proof. unfold c13_wf in Hwf. apply andb_prop in Hwf. tauto. Qed.
+  Lemma Hentry : entry_loc f = Some entry. Proof. unfold entry_loc. rewrite He, Hb. reflexivity. Qed.
+  Lemma Heb : In eb (f_blocks f). Proof. exact (proj1 (find_block_some _ _ _ Hb)). Qed.
+
+  Lemma reach_loc l : reachL f entry l -> In l (locations f).
+  Proof. intros H. apply (locations_valid f l Hinv). exact (reach_valid f Hinv eb Heb l H). Qed.
+
+  Lemma exact_eqn l s : clk m l = Some s ->
+    exists sto new, cjn m (il_pred f l) = Ok sto /\ c_trans f l sto = Ok new /\ forall k, cm_get new k = cm_get s k.
+  Proof.
+    intros Hl. unfold exact_solution in Hexact. rewrite forallb_forall in Hexact.
+    specialize (Hexact _ (lookup_in m l s Hl)). cbn [fst snd] in Hexact. unfold exact_at in Hexact. unfold il_pred.
+    destruct (backward f l) as [ps| |]; try discriminate.
+    destruct (cjn m ps) as [sto| |] eqn:Ej; try discriminate.
+    destruct (c_trans f l sto) as [new| |] eqn:Et; try discriminate.
+    exists sto, new. split; [reflexivity|split; [exact Et|apply cmap_eqb_get; exact Hexact]].
+  Qed.
+
+  Lemma cjn_good ps sto : cjn m ps = Ok sto -> forall s, sto = Some s -> good f s.
+  Proof.
+    intros H. apply (join_neighbours_good floc cmap floc_eqb c_join (good f)
+                      (fun a b j Ha Hb0 Hj => ltac:(injection Hj as <-; apply good_join; assumption)) m ps sto); [|exact H].
+    intros l s Hl. exact (Hgood l s Hl).
+  Qed.
+
+  Variable dm : da_map.
+  Hypothesis Hsol : da_solution f = Some dm.
+
+  (* the state before executing l is described by the state of an executed predecessor *)
+  Definition pre (l : floc) (st : sstate) (asg : list skey) : Prop :=
+    reachL f entry l /\ da_inv dm l asg /\
+    (asg = [] \/ exists p O, In p (il_pred f l) /\ clk m p = Some O /\ desc f O (st_env st) asg).
+
+  (* any join that includes the executed predecessor's state describes the state *)
+  Lemma pre_desc l st asg A : pre l st asg -> (forall k, In k (keys A) -> In k U) ->
+    (forall p O, In p (il_pred f l) -> clk m p = Some O -> above O A) -> desc f A (st_env st) asg.
+  Proof.
+    intros (_ & _ & [-> |(p & O & Hp & Hl & Hd)]) HA Hab; [apply desc_asg_nil|].
+    eapply desc_above; [exact HA|exact Hd|exact (Hab p O Hp Hl)].
+  Qed.
+
+  Lemma in_state_desc l st asg sto : pre l st asg -> cjn m (il_pred f l) = Ok sto ->
+    let s := match sto with Some s => s | None => [] end in good f s /\ desc f s (st_env st) asg.
+  Proof.
+    intros Hpre Hj. cbn zeta. destruct Hpre as (Hr & Hi & [-> |(p & O & Hp & Hl & Hd)]).
+    - split; [|apply desc_asg_nil]. destruct sto as [s|]; [eapply cjn_good; [exact Hj|reflexivity]|apply good_nil].
+    - destruct (cjn_above m (il_pred f l) p O Hp Hl (proj1 (Hgood p O Hl))) as (J & HJ & Hab).
+      rewrite HJ in Hj. injection Hj as <-. pose proof (cjn_good _ _ HJ J eq_refl) as GJ. split; [exact GJ|].
+      eapply desc_above; [exact (proj1 (proj2 GJ))|exact Hd|exact Hab].
+  Qed.
+
+  Lemma post_of_pre l st l' st' ev asg : pre l st asg -> sem_step f l st = Sem.Next l' st' ev ->
+    exists O, clk m l = Some O /\ desc f O (st_env st') (asg_after asg ev).
+  Proof.
+    intros Hpre Hs. pose proof Hpre as (Hr & Hi & _).
+    destruct (clk m l) as [O|] eqn:Hl; [|exfalso; exact (proj2 (Hdom l) Hr Hl)].
+    exists O. split; [reflexivity|].
+    destruct (exact_eqn l O Hl) as (sto & new & Hj & Ht & Hget).
+    destruct (in_state_desc l st asg sto Hpre Hj) as [Gs Ds].
+    apply (desc_ext f new O); [exact Hget|].
+    destruct (sem_step_next_inv f l st l' st' ev Hs) as [(i & Hins & Hex)|(Hins & -> & ->)].
+    - eapply (trans_desc f Hnames Hsrc l i sto st st' ev asg new (reach_loc l Hr) Hins _ eq_refl Gs Ds); [|exact Hex|exact Ht].
+      intros x Hx. apply Hi. destruct (da_facts f entry dm Hentry Hsol Hda) as (_ & _ & F3). exact (F3 l (reach_loc l Hr) x Hx).
+    - cbn [asg_after]. rewrite (c_trans_norm f) in Ht. unfold c_trans in Ht.
+      destruct l as [bi ii|h t|bi]; [|injection Ht as <-; exact Ds ..].
+      rewrite Hins in Ht. discriminate.
+  Qed.
+
+  Lemma pre_step l st l' st' ev asg : pre l st asg -> sem_step f l st = Sem.Next l' st' ev -> pre l' st' (asg_after asg ev).
+  Proof.
+    intros Hpre Hs. pose proof Hpre as (Hr & Hi & _).
+    pose proof (sem_step_next f l st l' st' ev Hs) as Hin.
+    assert (Hr' : reachL f entry l') by (eapply FixedPointProofs.reach_step; eassumption).
+    assert (Hp : In l (il_pred f l')) by (apply (il_converse f Hinv eb Heb); assumption).
+    destruct (post_of_pre l st l' st' ev asg Hpre Hs) as (O & Hl & Hd).
+    split; [exact Hr'|split].
+    - eapply (da_inv_step f entry dm Hentry Hsol Hda); [exact (reach_loc l' Hr')|exact Hp|exact Hi|exact Hs].
+    - right. exists l, O. auto.
+  Qed.
+
+  Lemma run_pre fuel : forall l st asg, pre l st asg ->
+    forall ti a, In (ti, a) (with_assigned asg (sem_run fuel f l st)) -> pre (ti_loc ti) (ti_before ti) a.
+  Proof.
+    induction fuel as [|fuel IH]; intros l st asg Hpre ti a Hin; [destruct Hin|].
+    cbn [sem_run with_assigned] in Hin. destruct Hin as [[= <- <-]|Hin]; [exact Hpre|].
+    cbn [ti_res] in Hin.
+    destruct (sem_step f l st) as [l' st1 ev| | |] eqn:Es; try destruct Hin.
+    eapply IH; [|exact Hin].
+    replace (match ev with EvAssign k _ | EvLoad k _ _ => k :: asg | _ => asg end) with (asg_after asg ev) by (destruct ev; reflexivity).
+    eapply pre_step; eassumption.
+  Qed.
+
+  Lemma pre_entry st0 : pre entry st0 [].
+  Proof.
+    split; [apply FixedPointProofs.reach_entry|split; [|left; reflexivity]].
+    intros x Hx. destruct (da_facts f entry dm Hentry Hsol Hda) as (F1 & _). rewrite F1 in Hx. destruct Hx.
+  Qed.
+End Sound.
+
+(* ================================================================== from the engine run to the theorems *)
+Lemma remap_get f m keys0 r l cm : remap f m keys0 = Ok r -> lm_get r l = Some cm -> remap_one f m l = Ok cm.
+Proof.
+  revert r. induction keys0 as [|[k v] t IH]; intros r H Hg; cbn [remap] in H.
+  - injection H as <-. discriminate Hg.
+  - destruct (remap_one f m k) as [c| |] eqn:E1; try discriminate. cbn [bind] in H.
+    destruct (remap f m t) as [r'| |]; try discriminate. cbn [bind] in H. injection H as <-.
+    cbn [lm_get] in Hg. destruct (floc_eqb k l) eqn:E.
+    + apply floc_eqb_eq in E. subst k. congruence.
+    + eapply IH; [reflexivity|exact Hg].
+Qed.
+Lemma remap_one_fold f m l cm : remap_one f m l = Ok cm -> cm = fold_left (rstep m) (il_pred f l) [].
+Proof.
+  unfold remap_one, il_pred. destruct (floc_apply f l); try discriminate. cbn [bind].
+  destruct (backward f l) as [ps| |]; try discriminate. cbn [bind]. intros [= <-]. reflexivity.
+Qed.
+Lemma rfold_good f m ps : (forall l s, clk m l = Some s -> good f s) ->
+  forall c, good f c -> good f (fold_left (rstep m) ps c).
+Proof.
+  intros Hm. induction ps as [|p ps IH]; intros c Hc; cbn [fold_left]; [exact Hc|]. apply IH.
+  unfold rstep. destruct (clk m p) as [s|] eqn:E; [apply good_join; [exact Hc|exact (Hm p s E)]|exact Hc].
+Qed.
+
+Lemma constants_states_facts f max m : cfg_inv (f_cfg f) = true -> srcs_wf f = true -> constants_states max f = Ok m ->
+  exists e eb, g_entry (f_cfg f) = Some e /\ find_block (f_blocks f) e = Some eb /\
+    (forall l, clk m l <> None <-> reachL f (block_first_loc eb) l) /\
+    (forall l s, clk m l = Some s -> good f s).
+Proof.
+  intros Hinv Hsrc H. unfold constants_states, fp_forward in H.
+  destruct (g_entry (f_cfg f)) as [e|] eqn:Ee; [|discriminate].
+  unfold f_block, cfg_block in H. fold (f_blocks f) in H.
+  destruct (find_block (f_blocks f) e) as [eb|] eqn:Eb; [|discriminate]. cbn [bind] in H.
+  exists e, eb. split; [reflexivity|split; [exact Eb|]].
+  match type of H with of_outcome _ ?R = _ => destruct R as [m'| | |] eqn:Er; try discriminate end.
+  cbn [of_outcome] in H. injection H as ->.
+  pose proof (proj1 (find_block_some _ _ _ Eb)) as Hin.
+  pose proof (il_from_ok f Hinv eb Hin) as Hfrom. pose proof (il_to_ok f Hinv eb Hin) as Hto.
+  pose proof (il_converse f Hinv eb Hin) as Hconv.
+  split.
+  - destruct (run_done_term _ _ _ _ _ _ _ _ _ _ _ _ _ _ _ Er) as (n & Hterm).
+    set (R := fun new s : cmap => cm_cmp new s = Some Eq \/ new = s).
+    assert (HI : Inv floc cmap floc_eqb (c_trans f) c_join (il_succ f) (il_pred f) (block_first_loc eb) R m []).
+    { refine (term_inv floc cmap floc_eqb (backward f) (forward f) (c_trans f) c_join cm_cmp
+                (Inv floc cmap floc_eqb (c_trans f) c_join (il_succ f) (il_pred f) (block_first_loc eb) R) false _ _ _ _ _ Hterm
+                (Inv_init _ _ _ _ _ _ _ _ R)).
+      apply (Inv_step floc cmap floc_eqb floc_eqb_reflect (backward f) (forward f) (c_trans f) c_join cm_cmp
+               (il_succ f) (il_pred f) (block_first_loc eb) Hfrom Hto Hconv R false).
+      - intros a b Hab. left. exact Hab.
+      - intros s. right. reflexivity.
+      - discriminate. }
+    exact (proj1 (Inv_final _ _ _ _ _ _ _ _ R m HI)).
+  - apply (fp_good floc cmap floc_eqb floc_eqb_reflect (backward f) (forward f) (c_trans f) c_join cm_cmp
+             (il_succ f) (il_pred f) (block_first_loc eb) Hfrom Hto Hconv (good f)) with (fuel := Datatypes.S (Datatypes.S max)) (force := false) (max := max).
+    + intros l st a Hr _ Hst Ht. apply (good_trans f Hsrc l st a); [|exact Hst|exact Ht].
+      apply (locations_valid f l Hinv). exact (reach_valid f Hinv eb Hin l Hr).
+    + intros a b j Ha Hb Hj. injection Hj as <-. apply good_join; assumption.
+    + exact Er.
+Qed.
+
+(* C13 soundness, relative to the validated exactness of the solution (see notes/C13.md) *)
+Theorem constants_sound_partial f max m r :
+  cfg_inv (f_cfg f) = true -> c13_wf f = true -> def_assigned f = true ->
+  constants_states max f = Ok m -> exact_solution f m = true -> remap f m m = Ok r ->
+  forall l0 st0 fuel ti asg cm,
+    entry_loc f = Some l0 ->
+    In (ti, asg) (with_assigned [] (sem_run fuel f l0 st0)) ->
+    lm_get r (ti_loc ti) = Some cm ->
+    (forall s c, cm_get cm s = Some (CConst c) -> key_mem (skey_of s) asg = true ->
+                 env_get (st_env (ti_before ti)) (skey_of s) = Some c) /\
+    (forall e v, wfb e = true -> cm_eval cm e = Ok (Some v) ->
+                 (forall x, In x (scalars e) -> key_mem (skey_of x) asg = true) ->
+                 den (st_env (ti_before ti)) e = Ok v).
+Proof.
+  intros Hinv Hwf Hda Hst Hex Hre l0 st0 fuel ti asg cm Hl0 Hin Hg.
+  pose proof (Hsrc f Hwf) as Hsr.
+  destruct (constants_states_facts f max m Hinv Hsr Hst) as (e & eb & He & Hb & Hdom & Hgood).
+  rewrite (Hentry f e eb He Hb) in Hl0. injection Hl0 as <-.
+  destruct (da_solution f) as [dm|] eqn:Hsol.
+  2:{ unfold def_assigned in Hda. rewrite (Hentry f e eb He Hb), Hsol in Hda. discriminate. }
+  pose proof (run_pre f Hinv Hwf Hda e eb He Hb m Hdom Hgood Hex dm Hsol fuel _ st0 []
+                (pre_entry f Hda e eb He Hb m dm Hsol st0) ti asg Hin) as Hpre.
+  pose proof (remap_one_fold f m _ cm (remap_get f m m r _ cm Hre Hg)) as Hcm.
+  assert (Gcm : good f cm) by (rewrite Hcm; apply rfold_good; [exact Hgood|apply good_nil]).
+  assert (Dcm : desc f cm (st_env (ti_before ti)) asg).
+  { apply (pre_desc f eb m dm (ti_loc ti) (ti_before ti) asg cm Hpre (proj1 (proj2 Gcm))).
+    intros p O Hp Hl. rewrite Hcm. apply (remap_above m _ p O Hp Hl (proj1 (Hgood p O Hl))). }
+  split.
+  - intros s c Hs Hk. exact (proj2 Dcm s c Hs Hk).
+  - intros ex v We Hev Hk. apply (cm_eval_sound _ cm ex v (wfb_wf _ We) (proj2 (proj2 Gcm))); [|exact Hev].
+    intros x cx Hx Hgx. exact (proj2 Dcm x cx Hgx (Hk x Hx)).
+Qed.
